@@ -1,20 +1,21 @@
+\* thorough: reconnect + expiry + Close at any moment with duplicates
 SPECIFICATION Spec
 CONSTANTS
   Callers = {P1, P2}
   CallKinds = {"call", "callWait"}
   MaxCallsPer = 1
-  CallReceivers = {"RC"}
+  CallReceivers = {}
   ReplyReceivers = {"RR"}
   MaxRecv = 1
   Cap = 1
-  MaxAcks = 2
-  MaxDupAcks = 0
+  MaxAcks = 3
+  MaxDupAcks = 1
   MaxNegAcks = 1
   MaxUnkAcks = 0
-  MaxReplies = 1
+  MaxReplies = 2
   MaxDupReplies = 0
-  MaxUnkReplies = 1
-  MaxInCalls = 1
+  MaxUnkReplies = 0
+  MaxInCalls = 0
   MaxFaults = 1
   MaxExpire = 1
   CloseAnytime = TRUE
